@@ -137,7 +137,18 @@ class Coop:
 
 def instrument_model(model, coop):
     """Replace the model's template/mask cache dict by one with schedule points at get / set / values-iteration."""
-    cache = model._template_mask_cache
+    # the cache object is a private detail of the model: look it up by name, else by shape (an attribute holding an object
+    # with a dict-typed attribute); if the model keeps no such cache any more, only attribute writes are schedule points
+    cache, dname = getattr(model, "_template_mask_cache", None), "_dict"
+    if cache is None or not isinstance(getattr(cache, dname, None), dict):
+        cache = None
+        for v in list(vars(model).values()):
+            for k2, v2 in list(getattr(v, "__dict__", {}).items()):
+                if isinstance(v2, dict) and type(v).__module__.startswith("acryo"):
+                    cache, dname = v, k2
+                    break
+            if cache is not None:
+                break
 
     class View:
         def __init__(s, d):
@@ -175,7 +186,8 @@ def instrument_model(model, coop):
         def values(s):
             return View(s)
 
-    cache._dict = IDict(cache._dict)
+    if cache is not None:
+        setattr(cache, dname, IDict(getattr(cache, dname)))
 
     # any attribute written on the shared model while tasks run is shared mutable state too:
     # a schedule point before every attribute write (reads happen while other threads are parked)
@@ -192,7 +204,7 @@ def instrument_model(model, coop):
         model.__class__ = Instrumented
     except TypeError:
         pass
-    return cache._dict
+    return getattr(cache, dname) if cache is not None else None
 
 
 # ------------------------------------------------------------------------------------------------------------------
